@@ -2,7 +2,7 @@ import Fs.Proofs.Fetch
 /-! Properties of the abstract read-position cursor; transferred to the code model through `sim_run`. -/
 namespace Fs.Fetch
 
-def Op.isExec {α} : Op α → Bool | .exec _ => true | _ => false
+def Op.isExec {α} : Op α → Bool | .exec _ => true | .fail => true | _ => false
 
 theorem sstep_res {α} (s : SCur α) (o : Op α) (h : o.isExec = false) : (sstep s o).2.res? = s.res? := by
   cases o <;> simp [Op.isExec] at h <;> simp only [sstep] <;> (try rfl) <;> (cases hh : s.res? <;> simp [hh])
@@ -13,6 +13,7 @@ theorem sstep_handed {α} (s : SCur α) (o : Op α) (rs : List α) (hr : s.res? 
     (sstep s o).1.handed = (rs.drop s.pos).take ((sstep s o).2.pos - s.pos) ∧ s.pos ≤ (sstep s o).2.pos := by
   cases o with
   | exec _ => simp [Op.isExec] at h
+  | fail => simp [Op.isExec] at h
   | setAs n => simp [sstep, Out.handed]
   | one =>
     simp only [sstep, hr, Out.handed]
@@ -81,6 +82,19 @@ theorem srun_all_pos {α} (rs : List α) (ops : List (Op α)) (s : SCur α) (hr 
     apply ih
     · rw [sstep_res _ _ (h o (by simp)), hr]
     · intro o' ho'; exact h o' (by simp [ho'])
+
+/-- without a result set every fetch raises the no-result-set error -/
+theorem srun_no_result {α} (ops : List (Op α)) (h : ∀ o ∈ ops, o.isExec = false) (s : SCur α) (hr : s.res? = none) :
+    ∀ o ∈ (srun s ops).1, o = Out.noResult ∨ o = Out.unit := by
+  induction ops generalizing s with
+  | nil => simp [srun]
+  | cons x xs ih =>
+    intro o ho
+    simp only [srun, List.mem_cons] at ho
+    rcases ho with rfl | ho
+    · cases x <;> simp [sstep, hr]
+    · exact ih (fun o' ho' => h o' (by simp [ho'])) (sstep s x).2
+        (by rw [sstep_res _ _ (h x (by simp)), hr]) o ho
 
 /-- at or beyond the end, every further fetch comes back empty and the position stays there -/
 theorem sstep_exhausted {α} (s : SCur α) (rs : List α) (hr : s.res? = some rs) (hp : rs.length ≤ s.pos)
